@@ -474,7 +474,8 @@ func checkDatagram(t vt.TB, which string, segs []seg, datagram, ns string, ignor
 	return allKnown
 }
 
-// renameLine changes the letters of a line's name (the bytes before its first ':') and keeps every length.
+// renameLine changes the letters of a line's name (the bytes before its first ':') and swaps the sample rates 0.5 and 0.1,
+// keeping every length and every offset.
 func renameLine(line string) string {
 	b := []byte(line)
 	for i := 0; i < len(b) && b[i] != ':'; i++ {
@@ -485,5 +486,10 @@ func renameLine(line string) string {
 			b[i] = 'a'
 		}
 	}
-	return string(b)
+	// and another sample rate of the same length in the same place
+	out := string(b)
+	out = strings.ReplaceAll(out, "|@0.5", "|@0.\x00")
+	out = strings.ReplaceAll(out, "|@0.1", "|@0.5")
+	out = strings.ReplaceAll(out, "|@0.\x00", "|@0.1")
+	return out
 }
